@@ -692,6 +692,13 @@ static void optional_type_case(const std::string& name, const T& x, const T& y)
         check("assigned-temporary-full", t, true, &y);
         t = x;
         check("assigned-value", t, true, &x);
+        t = *t; // the value comes from the optional's OWN payload (ASan watches the old payload)
+        check("assigned-own-payload", t, true, &x);
+        {
+            const T& inside = *t;
+            t = inside;
+            check("assigned-reference-into-own-payload", t, true, &x);
+        }
         T lv = y;
         t = lv;
         check("assigned-lvalue-value", t, true, &y);
